@@ -16,6 +16,7 @@ from __future__ import annotations
 import ast
 import itertools
 
+import numpy as np
 import torch
 import z3
 
@@ -161,6 +162,12 @@ class STensor(Symbolic):
 
     def _deepcopy(self, it, memo):
         return STensor(self.shape_, self.fn, self.dtype, self.name + "'")
+
+    def _copy(self, it):
+        # copy.copy(tensor): a new tensor object on the SAME storage (an in-place update of one is seen through the other)
+        t = STensor(self.shape_, self.fn, self.dtype, self.name + "~")
+        t._storage_of = getattr(self, "_storage_of", self)
+        return t
 
     def _len(self, it):
         if not self.shape_:
@@ -316,6 +323,9 @@ def as_tensor(it, v):
         return STensor((), lambda idx: e, "real")
     if isinstance(v, torch.Tensor):
         return from_native(v)
+    if type(v).__name__ == "SSeq" and getattr(v, "pytype", None) is np.ndarray and v.ec.sort in (R, I):
+        # a 1-D numpy array held as a symbolic sequence
+        return STensor((v.length,), lambda idx: v.at(idx[0]), "real" if v.ec.sort == R else "int")
     return None
 
 
@@ -468,6 +478,17 @@ def tensor_getitem(it, t: STensor, idx, node=None):
     items = _norm_index(t, idx)
     if sum(1 for i in items if i is not None) > t.ndim:
         ops.raise_(IndexError, "too many indices for tensor", node=node)
+    if any(isinstance(i, STensor) and i.ndim == 1 and i.dtype == "int" for i in items):
+        # a range next to an index tensor is an index array too (numpy / torch advanced indexing)
+        def as_index_array(i):
+            if isinstance(i, range) and i.step == 1:
+                lo = i.start
+                return STensor((len(i),), lambda idx: idx[0] + lo, "int")
+            if type(i).__name__ == "SRange":
+                lo, hi = to_z3(i.lo, "int"), to_z3(i.hi, "int")
+                return STensor((simplify_dim(it.cx, z3.If(hi > lo, hi - lo, z3.IntVal(0))),), lambda idx: idx[0] + lo, "int")
+            return i
+        items = [as_index_array(i) for i in items]
     adv = [i for i in items if isinstance(i, STensor) and i.ndim == 1 and i.dtype == "int"]
     if adv:
         # t[A, B, ...]: 1-D integer index tensors of one common length on the leading dimensions, full slices after
@@ -1598,6 +1619,9 @@ def m_std(it, t, dim=None, unbiased=True, correction=None, keepdim=False, **kw):
     return STensor(ssum.shape_, lambda idx: F_SQRT(ssum.fn(idx) / (N - corr)), "real")
 
 
+TENSOR_METHODS["std"] = m_std
+
+
 @model(torch.mean)
 def m_mean(it, t, dim=None, **kw):
     return t_mean(it, as_tensor(it, t), dim, **kw)
@@ -1616,6 +1640,38 @@ for _n in ("exp", "log", "sqrt", "square", "sigmoid", "abs", "clamp", "sum", "an
     model(getattr(torch, _n))(_elementwise(_n))
 for _n in ("view", "expand", "to", "cpu", "sum", "mean"):
     model(getattr(torch.Tensor, _n))(_elementwise(_n))
+
+
+def softmax_along(it, t, dim):
+    """softmax along one dimension of concrete size: exp(x_k) / sum_k' exp(x_k') with exp uninterpreted (the documented
+    definition; the max-subtraction torch performs for stability is not modelled)"""
+    t = as_tensor(it, t).as_num()
+    dim = dim % t.ndim
+    K = t.shape_[dim]
+    if not isinstance(K, int):
+        raise OutOfSubset("softmax along a dimension of symbolic size")
+
+    def fn(idx):
+        def at(k):
+            return F_EXP(t.fn(tuple(idx[:dim]) + (z3.IntVal(k),) + tuple(idx[dim + 1:])))
+        den = sum((at(k) for k in range(K)), z3.RealVal(0))
+        num = at(K - 1)
+        for k in reversed(range(K - 1)):
+            num = z3.If(idx[dim] == k, at(k), num)
+        return num / den
+    return STensor(t.shape_, fn, "real")
+
+
+@model(torch.nn.Softmax)
+def m_softmax_module(it, dim=None):
+    if dim is None:
+        raise OutOfSubset("Softmax without dim")
+    return SymCallable(lambda it_, x: softmax_along(it_, x, dim), f"Softmax(dim={dim})")
+
+
+@model(torch.softmax, torch.nn.functional.softmax)
+def m_softmax(it, t, dim=None, **kw):
+    return softmax_along(it, t, dim)
 
 
 @model(torch.where)
